@@ -18,7 +18,8 @@ matplotlib.use("Agg")
 import matplotlib.pyplot as plt
 
 PROP = "C17"
-ANALYSES = ["solve", "solve_tags", "rail_rep", "params", "limits", "phases", "tree", "save", "plot_interp", "make_diag", "make_hdiag", "batt_life"]
+ANALYSES = ["solve", "solve_tags", "rail_rep", "params", "limits", "phases", "tree", "save", "plot_interp", "make_diag", "make_hdiag", "batt_life",
+            "make_diag_nogroup", "make_hdiag_nogroup"]
 
 
 def systems(pal=0):
@@ -77,6 +78,10 @@ def run_analysis(s, spec, name, args):
         if name in ("make_diag", "make_hdiag"):
             p = os.path.join(wd, "d.raw")
             quiet_call(make_diag if name == "make_diag" else make_hdiag, s, fname=p, config=args["config"])
+            return ("dot", open(p).read())
+        if name in ("make_diag_nogroup", "make_hdiag_nogroup"):   # grouping switched off, library default configuration
+            p = os.path.join(wd, "d.raw")
+            quiet_call(make_diag if name == "make_diag_nogroup" else make_hdiag, s, fname=p, group=False)
             return ("dot", open(p).read())
         if name == "batt_life":
             st = [0.01, 3.7, 0.1]
@@ -149,7 +154,11 @@ def check_fault(case):
     s, calls, log, exc, npf = run_seq(variant, phname, seq, fault=fault)
     res.stats["transitions"] += len(calls) + 1
     kind = "pfunc-raises" if fault == "pfunc" else ("dfunc-raises" if "X" in seq else ("dfunc-aborts" if "Y" in seq else ("solver-raises" if "H" in seq else "normal")))
-    if kind != "normal" and exc is None:
+    if fault and fault != "pfunc":
+        kind = "pfunc-garbage"
+    elif any(ch in seq for ch in "GNSQ"):
+        kind = "dfunc-garbage"
+    if kind not in ("normal", "pfunc-garbage", "dfunc-garbage") and exc is None:
         res.v(("C17.fault-not-propagated", kind), "seq %s" % seq)
     if kind == "solver-raises" and not isinstance(exc, (ValueError, RuntimeError)):
         res.v(("C17.solver-fault-type", type(exc).__name__), "seq %s" % seq)
@@ -268,6 +277,14 @@ def gen_cases(tier):
     for variant in ("A", "B"):
         for phname in PHASES:
             yield dict(fam="fault", variant=variant, phases=phname, seq="Z", fault="pfunc")
+            from .c18 import GARBAGE
+            for gf in GARBAGE:
+                for sq in ("Z", "cZ"):
+                    yield dict(fam="fault", variant=variant, phases=phname, seq=sq, fault=gf)
+            for k in range(0, 3):
+                for body in itertools.product("cv", repeat=k):
+                    for end in "GNSQ":
+                        yield dict(fam="fault", variant=variant, phases=phname, seq="".join(body) + end)
             for k in range(0, K + 1):
                 for body in itertools.product("cvr", repeat=k):
                     for end in ("X", "Y", "H", "Z"):
@@ -288,7 +305,7 @@ def main(tier):
         run.map(check_case, gen_cases(tier), chunk=4, family="analyses")
     finally:
         _cw()
-    for c in ("seq2", "cross-system", "edit-between", "pfunc-raises", "dfunc-raises", "dfunc-aborts", "solver-raises", "normal"):
+    for c in ("seq2", "cross-system", "edit-between", "pfunc-raises", "dfunc-raises", "dfunc-aborts", "solver-raises", "normal", "pfunc-garbage", "dfunc-garbage"):
         run.require(c in run.classes, "class %s never observed" % c)
     return run.finish(
         rule="(a,b) 7 systems (chain, fan-out, two sources, 2-input PMux, phases, a 13-component system with 1-D / 2-D tables of every carrier + rails + groups + limits, a 3-input PMux with rails) x "
